@@ -71,8 +71,8 @@ def parseRel (s : String) : Option (String × String) :=
   | [_, sc, n] => some (sc, n)
   | _ => none
 
-/-- the `default:` arm of postgresType: first matching enum, or — pinned-tree behaviour — the first
-composite type met in catalog order -/
+/-- the `default:` arm of postgresType: the first enum or composite type of that schema-qualified name,
+in catalog order -/
 def pgFallbackTypes (env : TypeEnv) (relSchema relName : String) (notNull : Bool) :
     List (String × List TypeDecl) → Option String
   | [] => none
@@ -86,7 +86,9 @@ def pgFallbackTypes (env : TypeEnv) (relSchema relName : String) (notNull : Bool
             some (if sname == env.defaultSchema then structName env.rename n
                   else structName env.rename (sname ++ "_" ++ n))
           else go more
-        | .composite _ :: _ => some (if notNull then "string" else "sql.NullString")
+        | .composite n :: more =>
+          if relName == n && relSchema == sname then some (if notNull then "string" else "sql.NullString")
+          else go more
       match go tys with
       | some r => some r
       | none => pgFallbackTypes env relSchema relName notNull rest
